@@ -70,6 +70,8 @@ def classify_abort(res):
     m = re.search(r"\[[^\]]*/CRITICAL\] (.*)", err)
     if m:
         return "ABORT:critical:%s" % _norm_msg(m.group(1)).replace(" ", "-")[:80], m.group(0)[:300]
+    if res.rc in (-11, 139):
+        return "SIGSEGV", "segmentation fault"
     return "ABORT:rc=%s" % res.rc, (err[-300:] or "no stderr")
 
 
@@ -110,6 +112,9 @@ class Runner:
                     ctx.count("runs.dies_without_tracing_too")
                     return None
             ctx.count("runs.aborted")
+            if cls == "SIGSEGV" or cls.startswith("SAN:"):
+                # message-less crash: key it by the known-finding triggers present in the case (none = a new class)
+                cls += ":triggers=" + ("+".join(witness.get("triggers") or []) or "none")
             ctx.violation("C47:%s:%s" % (kind, cls), "%s run with %s did not finish (rc=%s): %s" % (kind, " ".join(witness["opts"]), res.rc, line),
                           dict(witness, stderr_tail=(res.err or "")[-1500:]))
         if not os.path.exists(trace):
@@ -156,13 +161,13 @@ class Runner:
             # raw contexts + exceptions under ASan = report inside the sanitizer's own sigaltstack interceptor (not SimGrid's)
             cmd.append("--cfg=contexts/factory:thread")
         res = proc.run(cmd, stdin=text, timeout=300)
-        w = {"kind": "s4u", "text": text, "opts": list(opts), "flavour": flavour}
+        w = {"kind": "s4u", "text": text, "opts": list(opts), "flavour": flavour, "triggers": tracegen.triggers_in(text, opts)}
 
         def baseline():
             c2 = [c for c in cmd if not c.startswith("--cfg=tracing")]
             r2 = proc.run(c2, stdin=text, timeout=300)
             return None if r2.timed_out else (r2.rc == 0 and "END " in (r2.out or ""))
-        return self.judge(kind if flavour == "hooks" else kind + "-asan", w, res, trace, "END " in (res.out or ""), baseline)
+        return self.judge(kind, w, res, trace, "END " in (res.out or ""), baseline)
 
     # ---- MPI -------------------------------------------------------------------------------------------------
     def hostfile(self, hosts, np_):
@@ -183,7 +188,9 @@ class Runner:
                "--cfg=smpi/host-speed:1Gf", BASE_LOG, "--cfg=tracing:yes", "--cfg=tracing/filename:" + trace]
         cmd += ["--cfg=" + o for o in opts] + [exe, str(m["seed"]), str(m["nops"]), str(m["mask"])]
         res = proc.run(cmd, timeout=400, cwd=self.tmp)
-        w = {"kind": "mpi", "mpi": m, "opts": list(opts)}
+        w = {"kind": "mpi", "mpi": m, "opts": list(opts),
+             "triggers": [t for t in (["router"] if m["plat"] in (1, 2) else []) + (["siblings"] if m["plat"] == 2 else [])
+                          if t in tracegen.known_triggers(opts)]}
         done = len(re.findall(r"^DONE \d+", res.out or "", re.M))
 
         def baseline():
